@@ -21,6 +21,6 @@ for n in $NAMES; do
   rm -rf "$OUT"
   git -C /repo worktree remove --force "$WT"
 done
-{ echo "# Every seeded change against the quick check of its own property (tools/seeddiag.sh)"; echo; echo '```'; cat "$TMP"; echo '```'; } > seeded/DIAGONAL.md
+{ echo "# Every seeded change against the quick check of its own property (tools/seeddiag.sh)"; echo; echo '```'; cat "$TMP"; echo '```'; } > seeded/DIAGONAL${VERIF_SEED:+-seed$VERIF_SEED}.md
 rm -f "$TMP"
 exit $BAD
